@@ -353,6 +353,18 @@ class Interp:
         while e.get("k") == "field":
             names.append(e["name"])
             e = e["e"]
+        if names and not rx.is_var(e, "self"):
+            # a local alias of a piece of the state: `let b = &mut self.bindings; b.var_index += 1`
+            e0 = e
+            while isinstance(e0, dict) and (e0.get("k") == "ref" or (e0.get("k") == "unary" and e0.get("op") == "*")):
+                e0 = e0["e"]
+            nm = rx.var_name(e0) if isinstance(e0, dict) else None
+            v = st.env.get(nm) if nm and nm != "self" else None
+            if isinstance(v, dict) and v.get("v") == "fieldref":
+                return v["field"] + "." + ".".join(reversed(names))
+            if isinstance(v, dict) and v.get("v") == "selfsub":
+                return v["prefix"] + ".".join(reversed(names))
+            return None
         if not names or not rx.is_var(e, "self"):
             return None
         return st.env.get("__selfprefix", "") + ".".join(reversed(names))
@@ -424,11 +436,11 @@ class Interp:
             return [(st, self._field_value(name, st))]
         out = []
         for s1, v in self.ev(base, st):
+            if v.get("v") == "fieldref":
+                v = self._field_value(v["field"], s1)
             if v.get("v") == "selfsub":
                 out.append((s1, self._field_value(v["prefix"] + e["name"], s1)))
                 continue
-            if v.get("v") == "fieldref":
-                v = self._field_value(v["field"], s1)
             if v.get("v") == "struct" and e["name"] in v["fields"]:
                 out.append((s1, v["fields"][e["name"]]))
             elif v.get("v") == "tuple" and e["name"].isdigit() and int(e["name"]) < len(v["xs"]):
@@ -695,6 +707,29 @@ class Interp:
                     if arm["guard"] is not None:
                         okay = False
                         break
+                    arms_out.append((arm, a))
+                if okay:
+                    for arm, a in arms_out:
+                        out += self.ev(arm["body"], a)
+                    continue
+            if isinstance(sv, dict) and sv.get("v") == "entry":
+                okay = True
+                arms_out = []
+                for arm in e["arms"]:
+                    pt = arm["pat"]
+                    while pt["k"] in ("ref", "typed"):
+                        pt = pt["pat"]
+                    if pt["k"] != "tstruct" or pt["segs"][-1] not in ("Occupied", "Vacant") or len(pt["elems"]) != 1 or arm["guard"] is not None:
+                        okay = False
+                        break
+                    occ = pt["segs"][-1] == "Occupied"
+                    if sv["known"] is not None and not occ:
+                        continue
+                    a = s1.fork()
+                    if sv["known"] is None:
+                        a.conds = a.conds + ((canon(sv["lookup"]), "Some" if occ else "None"),)
+                    val = sv["known"] if sv["known"] is not None else some_of(sv["lookup"])
+                    self.bind_pattern(pt["elems"][0], {"v": "occupied", "entry": sv, "val": val} if occ else {"v": "vacant", "entry": sv}, a)
                     arms_out.append((arm, a))
                 if okay:
                     for arm, a in arms_out:
@@ -1374,6 +1409,41 @@ class Interp:
                 mk = "#map:" + rv["field"]
                 st.fields[mk] = [x for x in st.fields.get(mk, []) if x[0] != canon(argv[0])] + [(canon(argv[0]), argv[1])]
             return [(st, {"v": "unit"})]
+        if k == "hole" and rv.get("kind") == "field" and m == "entry" and len(argv) == 1:
+            # HashMap entry API: the same case split as `get(key)` = Some / None, decided where the entry is matched on
+            known = None
+            for kc, val in st.fields.get("#map:" + rv["field"], []):
+                if kc == canon(argv[0]):
+                    known = val
+            return [(st, {"v": "entry", "field": rv["field"], "key": argv[0], "known": known, "lookup": H("lookup", src(e), field=rv["field"], key=argv, method="get")})]
+        if k == "occupied" and m in ("get", "into_mut", "get_mut") and not argv:
+            return [(st, rv["val"])]
+        if k == "occupied" and m == "key" and not argv:
+            return [(st, rv["entry"]["key"])]
+        if k == "vacant" and m in ("key", "into_key") and not argv:
+            return [(st, rv["entry"]["key"])]
+        if k == "vacant" and m == "insert" and len(argv) == 1:
+            ent = rv["entry"]
+            st.effects.append(("insert", ent["field"], [ent["key"], argv[0]]))
+            mk = "#map:" + ent["field"]
+            st.fields[mk] = [x for x in st.fields.get(mk, []) if x[0] != canon(ent["key"])] + [(canon(ent["key"]), argv[0])]
+            return [(st, argv[0])]
+        if k == "entry" and m in ("or_insert", "or_insert_with") and len(argv) == 1:
+            if rv["known"] is not None:
+                return [(st, rv["known"])]
+            out_ = []
+            a_ = st.fork()
+            a_.conds = a_.conds + ((canon(rv["lookup"]), "Some"),)
+            out_.append((a_, some_of(rv["lookup"])))
+            b_ = st.fork()
+            b_.conds = b_.conds + ((canon(rv["lookup"]), "None"),)
+            vals = [(b_, argv[0])] if m == "or_insert" else self.call_closure(argv[0], [], b_)
+            for s2, v2 in vals:
+                s2.effects.append(("insert", rv["field"], [rv["key"], v2]))
+                mk = "#map:" + rv["field"]
+                s2.fields[mk] = [x for x in s2.fields.get(mk, []) if x[0] != canon(rv["key"])] + [(canon(rv["key"]), v2)]
+                out_.append((s2, v2))
+            return out_
         if k == "hole" and rv.get("kind") == "field" and m in MUTATORS:
             # the generator's own state is changed in a way the interpreter has no model for: every rule that reads the
             # paths of this function must treat them as not understood (fail closed)
